@@ -95,7 +95,130 @@ theorem addKey_keys (other tgt : ODict Param) (k : Str) :
       · simp [hk]
     · right; simp [h]
 
-#print axioms inter_order_irrelevant
-#print axioms diff_order_matters
+/-! ### `ir_merge` after fix ab10a32: the names missing from the target are appended in `other`'s order -/
+
+def okeys (d : ODict Param) : List Str := d.map (·.1)
+
+/-- the names only `other` has, in `other`'s own order (`for name in other_params: if name not in target_params`) -/
+def missingKeys (target other : ODict Param) : List Str := (okeys other).filter fun k => !(okeys target).contains k
+
+/-- `ir_merge(target, other)["params"]`; `σ` = the order in which Python iterates `other.keys() & target.keys()` -/
+def irMergeParams (target other : ODict Param) (σ : List Str) : ODict Param :=
+  if target.isEmpty then other
+  else if other.isEmpty then target
+  else mergeParams target other σ (missingKeys target other)
+
+theorem updKey_keys (other tgt : ODict Param) (k : Str) : okeys (updKey other tgt k) = okeys tgt := by
+  unfold updKey okeys
+  cases other.get? k with
+  | none => rfl
+  | some o =>
+    simp only [List.map_map]
+    apply List.map_congr_left
+    intro kv _
+    simp only [Function.comp]
+    by_cases h : kv.1 == k <;> simp [h]
+
+theorem foldl_updKey_keys (other : ODict Param) : ∀ (σ : List Str) (tgt : ODict Param),
+    okeys (σ.foldl (updKey other) tgt) = okeys tgt
+  | [], _ => rfl
+  | k :: ks, tgt => by
+    simp only [List.foldl_cons]
+    rw [foldl_updKey_keys other ks, updKey_keys]
+
+/-- **C12 (merge)**: the merged parameters do not depend on the order in which the set of common names is
+    iterated — whatever string hashing does, the result is the same -/
+theorem irMerge_deterministic (target other : ODict Param) (σ σ' : List Str) (hp : σ.Perm σ') (hnd : σ.Nodup) :
+    irMergeParams target other σ = irMergeParams target other σ' := by
+  unfold irMergeParams mergeParams
+  rw [inter_order_irrelevant other target σ σ' hp hnd]
+
+theorem set_fresh_keys (d : ODict Param) (k : Str) (v : Param) (h : (okeys d).contains k = false) :
+    okeys (d.set k v) = okeys d ++ [k] := by
+  unfold ODict.set okeys
+  have : d.any (fun kv => kv.1 == k) = false := by
+    simp only [okeys, List.contains_eq_any_beq, List.any_map] at h
+    rw [← h]; congr 1; funext kv; simp only [Function.comp]; exact Bool.beq_comm
+  simp [this]
+
+theorem addKey_fresh (other tgt : ODict Param) (k : Str) (hk : (okeys other).contains k = true)
+    (hf : (okeys tgt).contains k = false) : okeys (addKey other tgt k) = okeys tgt ++ [k] := by
+  unfold addKey
+  cases hg : other.get? k with
+  | none =>
+    exfalso
+    unfold ODict.get? at hg
+    simp only [okeys, List.contains_eq_any_beq, List.any_map, List.any_eq_true] at hk
+    obtain ⟨kv, hmem, heq⟩ := hk
+    have : (other.find? (fun kv => kv.1 == k)).isSome := by
+      rw [List.find?_isSome]
+      refine ⟨kv, hmem, ?_⟩
+      simp only [Function.comp] at heq
+      rw [Bool.beq_comm]; exact heq
+    cases hfind : other.find? (fun kv => kv.1 == k) with
+    | none => rw [hfind] at this; cases this
+    | some x => rw [hfind] at hg; cases hg
+  | some o => exact set_fresh_keys tgt k o hf
+
+/-- appending a duplicate-free list of names none of which is in the target: they arrive in that order -/
+theorem foldl_addKey_keys (other : ODict Param) : ∀ (ks : List Str) (tgt : ODict Param),
+    ks.Nodup → (∀ k ∈ ks, (okeys other).contains k = true ∧ (okeys tgt).contains k = false) →
+    okeys (ks.foldl (addKey other) tgt) = okeys tgt ++ ks
+  | [], tgt, _, _ => by simp
+  | k :: ks, tgt, hnd, h => by
+    simp only [List.foldl_cons]
+    have hk := h k (by simp)
+    have hstep := addKey_fresh other tgt k hk.1 hk.2
+    have hnd' : ks.Nodup := (List.nodup_cons.mp hnd).2
+    have hnotin : k ∉ ks := (List.nodup_cons.mp hnd).1
+    rw [foldl_addKey_keys other ks (addKey other tgt k) hnd' ?_, hstep]
+    · simp
+    · intro k' hk'
+      refine ⟨(h k' (by simp [hk'])).1, ?_⟩
+      rw [hstep]
+      have h1 := (h k' (by simp [hk'])).2
+      have hne : k' ≠ k := fun e => hnotin (e ▸ hk')
+      simp only [List.contains_eq_any_beq, List.any_append, List.any_cons, List.any_nil, Bool.or_false,
+        Bool.or_eq_false_iff] at h1 ⊢
+      refine ⟨h1, ?_⟩
+      cases hb : (k' == k) with
+      | false => rfl
+      | true => exact absurd (beq_iff_eq.mp hb) hne
+
+theorem missingKeys_nodup (target other : ODict Param) (h : (okeys other).Nodup) : (missingKeys target other).Nodup :=
+  List.Pairwise.filter _ h
+
+/-- **C07 (no parameter dropped or duplicated; where they end up)**: the merged description has exactly
+    the target's names, in the target's order, followed by the names only `other` has, in `other`'s order —
+    for every iteration order of the set of common names -/
+theorem irMerge_keys (target other : ODict Param) (σ : List Str) (ht : target ≠ []) (ho : other ≠ [])
+    (hnd : (okeys other).Nodup) :
+    okeys (irMergeParams target other σ) = okeys target ++ missingKeys target other := by
+  unfold irMergeParams mergeParams
+  have h1 : target.isEmpty = false := by cases target <;> simp_all
+  have h2 : other.isEmpty = false := by cases other <;> simp_all
+  simp only [h1, h2, Bool.false_eq_true, if_false]
+  rw [foldl_addKey_keys other (missingKeys target other) _ (missingKeys_nodup target other hnd)]
+  · rw [foldl_updKey_keys]
+  · intro k hk
+    unfold missingKeys at hk
+    simp only [List.mem_filter, Bool.not_eq_true'] at hk
+    refine ⟨?_, ?_⟩
+    · simp only [List.contains_eq_any_beq, List.any_eq_true]
+      exact ⟨k, hk.1, by simp⟩
+    · rw [foldl_updKey_keys]; exact hk.2
+
+/-- **C07 (precedence)**: for a name both sides know, documented information wins and the signature fills
+    the gaps: the merged entry is `mergeParam` of the two (prose/type of the target unless absent, the
+    target's default unless it is None-like and the other side has a usable one) -/
+theorem updKey_at (other tgt : ODict Param) (k : Str) (o : Param) (ho : other.get? k = some o) :
+    updKey other tgt k = tgt.map fun kv => if kv.1 == k then (kv.1, mergeParam kv.2 o) else kv := by
+  unfold updKey; rw [ho]
+
+/-- D3 as it is today, kernel-checked: with partial documentation the documented parameter comes first,
+    not in signature order -/
+theorem documented_first_witness :
+    okeys (irMergeParams [(['c'], { doc := some ['x'] })] [(['a'], {}), (['b'], {}), (['c'], {})] [['c']])
+      = [['c'], ['a'], ['b']] := by decide
 
 end Py
